@@ -10,7 +10,8 @@
 (*   C03.exchange_failed  C03.sections_mismatch  C03.bundle_mismatch        *)
 (*   C03.codec_not_offered  C03.payload_type  C03.rtx_without_base          *)
 (*   C03.feedback_not_offered  C03.extension_not_offered  C03.extension_id  *)
-(*   C03.setup_indefinite  C03.not_stable  C03.directions_not_complementary *)
+(*   C03.setup_indefinite  C03.setup_role_changed  C03.not_stable            *)
+(*   C03.directions_not_complementary                                        *)
 (*   C03.not_connected  C03.channel_not_open  C03.message_not_carried       *)
 EXTENDS Negotiation, Json, IOUtils, TLCExt, SequencesExt
 
@@ -32,12 +33,32 @@ WellFormed(r) ==
   /\ {"offerer", "exc", "offer", "answer", "sigOff", "sigAns", "dirs", "connOff", "connAns", "chans"} \subseteq DOMAIN r
   /\ {"media", "bundle"} \subseteq DOMAIN r.offer /\ {"media", "bundle"} \subseteq DOMAIN r.answer
 
+\* "A definite DTLS role" over follow-up negotiations (also with the offering side swapped):
+\* what a peer declares for a section when it answers must not contradict the role it took
+\* for the same section (mid) in an earlier successful round - active = client, passive =
+\* server; the other peer then has the opposite role.
+RoleOf(setup) == IF setup = "active" THEN "client" ELSE "server"
+Flip(x) == IF x = "client" THEN "server" ELSE "client"
+Answerer(r) == IF r.offerer = "A" THEN "B" ELSE "A"
+RoleConsistent(n) ==
+  LET r == Rounds[n] IN
+  \A k \in 1..(n - 1) :
+    LET q == Rounds[k] IN
+    (q.exc = "" /\ WellFormed(q)) =>
+      \A i \in DOMAIN r.answer.media : \A j \in DOMAIN q.answer.media :
+         LET a == r.answer.media[i]
+             b == q.answer.media[j] IN
+         (a.mid = b.mid /\ a.setup \in {"active", "passive"} /\ b.setup \in {"active", "passive"}) =>
+            RoleOf(a.setup) = (IF Answerer(r) = Answerer(q) THEN RoleOf(b.setup) ELSE Flip(RoleOf(b.setup)))
+
 Consume ==
   /\ ~done /\ verdict = "ok" /\ l <= Len(Rounds)
   /\ l' = l + 1
   /\ verdict' = IF ~WellFormed(Rounds[l]) THEN "machinery.malformed_record"
                 ELSE IF Rounds[l].exc = "" /\ Len(Rounds[l].offer.media) = 0 THEN "machinery.empty_offer"
-                ELSE RoundVerdict(Rounds[l])
+                ELSE IF RoundVerdict(Rounds[l]) # "ok" THEN RoundVerdict(Rounds[l])
+                ELSE IF Rounds[l].exc = "" /\ ~RoleConsistent(l) THEN "C03.setup_role_changed"
+                ELSE "ok"
   /\ UNCHANGED <<vars, tid, done>>
 
 Finish ==
